@@ -100,6 +100,9 @@ class CtxHistory:
         self.by_version = {}
         self.commits = []  # (version, handles of the context states in the transaction result)
         self.ever_disassociated = set()  # handles of states the monitor saw leaving Assoc (reach counter for 'a second time')
+        self.bound_at = {}    # handle -> MdibVersion at which the monitor saw the state become associated (while it stays associated)
+        self.unbound_at = {}  # handle -> MdibVersion at which the monitor saw the state stop being associated (while it stays Dis)
+        self.changed = {}     # MdibVersion -> handles of the states whose association changed in that commit (for the report monitor)
         with mdib.mdib_lock:
             self.by_version[mdib.mdib_version] = ctx_snapshot(mdib)
         properties.strongbind(mdib, transaction=self._on_commit)
